@@ -77,10 +77,10 @@ def determinism(argv):
 def _header(path):
     meta = {}
     with open(path) as f:
-        for line in f:
+        for n, line in enumerate(f):
             if not line.startswith("#"):
                 break
-            if ":" in line:
+            if n < 2 and ":" in line:
                 k, v = line[1:].split(":", 1)
                 meta[k.strip()] = v.strip()
             else:
